@@ -2,6 +2,8 @@
 // callers use and prints the results, one line per case.
 #include "oracle.hpp"
 #include "NifUtil.hpp"
+#include <map>
+#include <unordered_map>
 
 using namespace nifly;
 
@@ -95,6 +97,51 @@ static std::string do_strips(const Case& c) {
 	return str_tris(GenerateTrianglesFromStrips(strips));
 }
 
+// ApplyIndexMapToMapKeys on a std::map / std::unordered_map with the given key type. Prints the
+// resulting entries by ascending key (for std::map: in the container's own iteration order, which
+// must be the same thing), then '@' and the order in which the INPUT container iterates (the loop
+// model takes that order as an input).
+template<typename MapT, bool Ordered>
+static std::string do_mapkeys(const Case& c) {
+	using K = typename MapT::key_type;
+	auto keys = get_list<long long>(c, "keys");
+	auto vals = get_list<int>(c, "vals");
+	const std::vector<int> im = get_list<int>(c, "map");
+	const int off = static_cast<int>(c.geti("off"));
+	MapT m;
+	for (size_t i = 0; i < keys.size() && i < vals.size(); ++i)
+		m.emplace(static_cast<K>(keys[i]), vals[i]);
+	std::ostringstream order;
+	bool first = true;
+	for (auto& d : m) {
+		if (!first)
+			order << ",";
+		first = false;
+		order << +d.first;
+	}
+	// the call may trap (signed overflow under UBSan): earlier result lines must not be lost
+	std::cout << std::flush;
+	ApplyIndexMapToMapKeys(m, im, off);
+	std::ostringstream os;
+	first = true;
+	auto put = [&](K k, int v) {
+		if (!first)
+			os << ";";
+		first = false;
+		os << +k << ":" << v;
+	};
+	if (Ordered) {
+		for (auto& d : m)
+			put(d.first, d.second);
+	}
+	else {
+		std::map<K, int> sorted(m.begin(), m.end());
+		for (auto& d : sorted)
+			put(d.first, d.second);
+	}
+	return os.str() + "@" + order.str();
+}
+
 static int oracle_util(int, char**) {
 	std::string line;
 	while (std::getline(std::cin, line)) {
@@ -123,6 +170,15 @@ static int oracle_util(int, char**) {
 		}
 		else if (c.op == "strips")
 			r = w == 16 ? do_strips<uint16_t>(c) : do_strips<uint32_t>(c);
+		else if (c.op == "mapkeys") {
+			bool ord = c.get("c") != "u";
+			if (w == 16)
+				r = ord ? do_mapkeys<std::map<uint16_t, int>, true>(c) : do_mapkeys<std::unordered_map<uint16_t, int>, false>(c);
+			else if (w == 32)
+				r = ord ? do_mapkeys<std::map<uint32_t, int>, true>(c) : do_mapkeys<std::unordered_map<uint32_t, int>, false>(c);
+			else // w = 31 value bits: int
+				r = ord ? do_mapkeys<std::map<int, int>, true>(c) : do_mapkeys<std::unordered_map<int, int>, false>(c);
+		}
 		std::cout << "I=" << r << "\n";
 	}
 	return 0;
